@@ -762,7 +762,7 @@ pub fn signed_bitmessage_to_buf(
     }
 
     // Advance past answer and authority records together.
-    let answer_authority_count = (counts.answers + counts.authorities) as usize;
+    let answer_authority_count = counts.answers as usize + counts.authorities as usize;
     let (_, _, sig) = Message::read_records(
         &mut decoder,
         answer_authority_count,
